@@ -42,7 +42,10 @@ def run(ck):
     corpus = [[[("a1", 0)], [("b2", 0)], [("c3", 0), ("d4", 0), ("e5", 0)]],
               [[("a1", 1), ("b2", 1), ("c3", 0)], [("d4", 1)], [("e5", 0)]],
               [[("a1", 2)], [("b2", 2)], [(c + "9", 2) for c in "cdefghijklmnopqrstuvwxyzABCD"], [(c + "8", 2) for c in "cdefghijklmnopqrstuvwxyzABCD"]],
-              [[("a1", 1)], [("", 1)], [("c3", 1)]]]
+              [[("a1", 1)], [("", 1)], [("c3", 1)]],
+              # response buffers must not be shared between requests in flight: large concurrent batches on every service
+              [[("a1", 0)], [(c + "7", 0) for c in "abcdefghijklmnopqrstuvwxyzABCDEF"], [(c + "6", 0) for c in "abcdefghijklmnopqrstuvwxyzABCDEF"],
+               [("b1", 1)], [(c + "5", 1) for c in "abcdefghijklmnopqrstuvwxyzABCDEF"], [(c + "4", 1) for c in "abcdefghijklmnopqrstuvwxyzABCDEF"]]]
     if not hists:
         for h in corpus:
             hists.append([[{"id": (i or "e") + "x%d" % k, "q": "q" + i, "user": ("u" + i) if i else "", "body": "b" + i, "svc": s} for k, (i, s) in enumerate(b)] for b in h])
